@@ -1,11 +1,15 @@
 #!/bin/bash
-# Builds the Lean library (all property modules) and the native model drivers from files on disk only.
+# Builds the Lean library (the claimed property modules) and the native model drivers from files on disk only.
 set -e
 cd "$(dirname "$0")"
 python3 -c "
 import sys; sys.path[:0]=['lib']
 from vf import leanp; leanp.gen_main()"
+claimed=$(cat tools/claimed.txt)
 cd lean
-props=$(ls SquidModel/Properties/*.lean | sed 's|/|.|g; s|\.lean$||')
-drivers=$(ls Driver/C*.lean 2>/dev/null | sed 's|Driver/|model-|; s|\.lean$||' | tr 'A-Z' 'a-z')
+props=""; drivers=""
+for c in $claimed; do
+  [ -f SquidModel/Properties/$c.lean ] && props="$props SquidModel.Properties.$c"
+  [ -f Driver/$c.lean ] && drivers="$drivers model-$(echo $c | tr 'A-Z' 'a-z')"
+done
 lake build SquidModel Driver $props $drivers 2>&1 | tail -5
